@@ -656,7 +656,7 @@ package leader
 //@   on call wg.Wait assert C20+C09.stop_wait_is_announced: stopsAnnouncedHere == 1
 //@   on return assert C20+C09.stop_wait_is_closed: stopsAnnouncedHere == 0
 //@   on select as s assert C09.stop_waits_time_boxed: s.blocking ==> s.hasAfter
-//@   on call time.After as a assert C09.stop_wait_bound: a.d == 5000000000
+//@   on call time.After as a assert C09.stop_wait_bound: a.d > 0 && a.d <= 5000000000
 //@   ensures C08.demote_iff_claim_cleared: !ctxNilL ==> (wasLeaderL ? (calls(onDemote) == 1 || (calls(onDemote) == 0 && demoteNilSeen)) : calls(onDemote) == 0)
 //@   ensures C09.second_stop: ctxNilL ==> result == ErrAlreadyStopped && calls(cancel) == 0 && calls(onDemote) == 0
 //@   ensures C09.stop_cancels: !ctxNilL ==> result == nil
@@ -1037,8 +1037,8 @@ package leader
 //@   ghost leaderSeen Bool = false
 //@   ghost checked Bool = false
 //@   on recv ctx.Done set sawDone = true
-//@   on call time.NewTicker as t assert C06.periodic_check_constant: t.d == 500000000
-//@   on call time.NewTicker as t set tickerArmed = t.d == 500000000
+//@   on call time.NewTicker as t assert C06.periodic_check_constant: t.d > 0 && t.d <= 500000000
+//@   on call time.NewTicker as t set tickerArmed = t.d > 0 && t.d <= 500000000
 //@   on select as s assert C06.periodic_check_in_every_wait: s.hasTicker
 //@   on recv ticker set tick = true
 //@   on recv ticker set leaderSeen = false
